@@ -71,7 +71,10 @@ func Gen(seed uint64, tier string) any {
 	case 2:
 		sc.Msg.Pad = core.Pick(r, 100, 1000, 20000, 60000)
 	}
-	sc.Key = r.IntN(len(gen.KeyText))
+	sc.Key = r.IntN(12)
+	if core.Chance(r, 4) {
+		sc.Key = 12 + r.IntN(len(gen.KeyText)-12) // the 4096-bit RSA keys: slow, used sparingly
+	}
 	if core.Chance(r, 8) {
 		sc.Parallel = 2 + r.IntN(3)
 	}
@@ -102,8 +105,10 @@ func Gen(seed uint64, tier string) any {
 			}
 		case x < 87:
 			d.Fault = "wrongkey"
-		case x < 94:
+		case x < 91:
 			d.Fault = "othername"
+		case x < 94:
+			d.Fault = "parentname"
 		}
 		if d.Fault != "none" && core.Chance(r, 10) {
 			d.Time = core.Pick(r, "incept", "expire")
@@ -187,9 +192,11 @@ func Shrink(x any) []any {
 }
 
 type keyPair struct {
-	key   *dns.KEY
-	priv  crypto.Signer
-	other *dns.KEY // same public key, different owner
+	key     *dns.KEY
+	priv    crypto.Signer
+	loadErr string   // the library refused to read this (valid, supported) key pair
+	other   *dns.KEY // same public key, different owner
+	parent  *dns.KEY // same public key, owned by the parent domain of the signer's name
 }
 
 var (
@@ -206,11 +213,17 @@ func loadKeys() {
 		k := rr.(*dns.KEY)
 		p, err := k.NewPrivateKey(kt.Priv)
 		if err != nil {
-			panic(err)
+			// a supported key the library refuses: reported by the runs that draw it
+			keys = append(keys, keyPair{key: k, loadErr: err.Error()})
+			continue
 		}
 		o := dns.Copy(k).(*dns.KEY)
 		o.Hdr.Name = "someone-else.example."
-		keys = append(keys, keyPair{key: k, priv: p.(crypto.Signer), other: o})
+		par := dns.Copy(k).(*dns.KEY)
+		if i := strings.IndexByte(k.Hdr.Name, '.'); i > 0 {
+			par.Hdr.Name = k.Hdr.Name[i+1:]
+		}
+		keys = append(keys, keyPair{key: k, priv: p.(crypto.Signer), other: o, parent: par})
 	}
 }
 
@@ -254,6 +267,10 @@ func runIn(sc *Scenario, res *core.Result, verbose bool) {
 	defer func() { res.SimNS = int64(time.Since(start)) }()
 	kp := keys[sc.Key%len(keys)]
 	algName := dns.AlgorithmToString[kp.key.Algorithm]
+	if kp.loadErr != "" {
+		res.Fail("Q2", "supported-key-refused", "the library refuses the %s key pair %s (generated by the library itself): %s", algName, kp.key.Hdr.Name, kp.loadErr)
+		return
+	}
 	time.Sleep(time.Duration(sc.EpochS) * time.Second)
 
 	m := sc.Msg.Build()
@@ -419,6 +436,10 @@ func runIn(sc *Scenario, res *core.Result, verbose bool) {
 			key = kp.other
 			tampered = true
 			res.Bump("fault.key_other_owner")
+		case "parentname":
+			key = kp.parent // a key of an enclosing domain is not the signer's key
+			tampered = true
+			res.Bump("fault.key_parent_owner")
 		}
 		if tclass != "in" {
 			res.Bump("fault.time_" + tclass)
@@ -494,7 +515,7 @@ type pairTask struct {
 //go:norace
 func (p *pairTask) RunEvent(time.Time) {
 	k := p.k
-	kp := keys[(p.sc.Key+2*p.idx)%len(keys)]
+	kp := keys[(p.sc.Key+2*p.idx)%12]
 	for round := 0; round < 2; round++ {
 		rc := p.sc.Msg
 		rc.ID += uint16(p.idx*16 + round)
